@@ -118,6 +118,18 @@ Theorem C02_error_dispatch_terminates : forall nref depth en msg, (2 <= depth)%n
 Proof. exact (error_dispatch_terminates_depth2 C gen_ok). Qed.
 Theorem C02_socket_addr_safe : forall arg, nonul arg -> exists n, socket_addr C arg = Ok n /\ n <= s_sock_path_size C + 2.
 Proof. exact (socket_addr_safe C gen_ok). Qed.
+(** devlogoutput.c / fileoutput.c: ident / path template buffers and the prefix / line buffers, for any formatter that
+    meets the buffer contract at the two sizes these outputs pass *)
+Definition gen_contract (gen : arr -> N -> N -> list byte -> res arr) : Prop :=
+  forall a bs th fmt, (bs = s_ident_buf C \/ bs = s_path_max C) -> th = bs ->
+    (exists s0, cstr a 0 = Ok s0 /\ len s0 < bs) -> 1 <= bs -> bs <= cap a -> 1 <= th -> nonul fmt ->
+    exists a' s, gen a bs th fmt = Ok a' /\ cap a' = cap a /\ cstr a' 0 = Ok s /\ len s < bs.
+Theorem C02_devlog_safe : forall gen, gen_contract gen -> forall msg ident_fmt pri pid, nonul msg -> nonul ident_fmt ->
+    exists r, devlog_datagram C gen msg ident_fmt pri pid = Ok r.
+Proof. exact (devlog_safe C gen_ok). Qed.
+Theorem C02_file_line_safe : forall gen, gen_contract gen -> forall msg path_fmt, nonul msg -> nonul path_fmt ->
+    exists r, file_line C gen msg path_fmt = Ok r.
+Proof. exact (file_line_safe C gen_ok). Qed.
 Theorem C02_small_file_safe : forall content limits tl, nonul tl ->
     exists s ok, small_file C content limits tl = Ok (s, ok) /\ len s < N.max (s_file_max C) (s_file_err_max C).
 Proof. exact (small_file_safe C gen_ok). Qed.
@@ -163,6 +175,8 @@ Print Assumptions C02_datetime_safe.
 Print Assumptions C02_snprintf_ds_safe.
 Print Assumptions C02_error_dispatch_terminates.
 Print Assumptions C02_socket_addr_safe.
+Print Assumptions C02_devlog_safe.
+Print Assumptions C02_file_line_safe.
 Print Assumptions C02_small_file_safe.
 Print Assumptions C02_safe_partial.
 
